@@ -71,7 +71,7 @@ class World:
         self.sent_by_op = {}    # ghost: op index -> list of (sid, bytes)
         self.faults = []        # ghost: (op, sid, event kind, trace length) for every scripted failure raised
         self.addr_peer = None   # optional: callable((host, port), sent bytes) -> reply, for worlds with several servers
-        self.refuse = set()     # remotes (host, port) whose connect() is refused
+        self.refuse = set()     # remotes (host, port) that are down: connect() is refused, open connections are reset
         self.on_block = None    # exception name raised by a recv that finds nothing owed (default: the WouldBlock marker)
         self.ct, self.it = CONNECT_TIMEOUT, IO_TIMEOUT     # the configured connect / I/O timeouts (None allowed)
         self.timeouts_set = {}  # sid -> number of settimeout calls so far
@@ -148,6 +148,9 @@ class FakeSocket:
             raise ConnectionRefusedError(111, "refused by the scripted world")
 
     def sendall(self, data):
+        if getattr(self, "remote", None) in self.w.refuse:      # a node that is down also resets the connections it had
+            self.w.trace.append((7, self.sid, bytes(data)))
+            raise ConnectionResetError(104, "reset by the scripted world: the node is down")
         late = self.w.call((7, self.sid, bytes(data)))
         r = self.w.addr_peer(getattr(self, "remote", None), bytes(data)) if self.w.addr_peer else self.w.reply_to(bytes(data))
         self.w.tags.append((self.sid, bytes(data), bytes(r)))
@@ -368,6 +371,10 @@ def apply_op(cl, op):
     if code == 22:
         del cl[op[1]]
         return None
+    if code == 23:
+        return cl.cache_memlimit(op[1])
+    if code == 24:
+        return cl.shutdown(op[1])
     raise ValueError(op)
 
 
